@@ -235,6 +235,11 @@ def gen_object(crate, spec, obj):
         "bounds": "all %d-word inputs (every word a full symbolic i32) at lengths %d..=%d; %d constrained words" % (n, max(n - 1, 0), n + 1, constrained),
         "exhaustive": True,
     }
+    if "boolean" in kinds:
+        # recorded known finding (known_findings.json): boolean members of snapshot objects are Rust
+        # `bool`s inside a repr(C) struct that encode() transmutes to [i32]; these harnesses are the
+        # witnesses and are expected to fail with exactly the recorded checks
+        entry["expect"] = "fail"
     return {"entry": entry, "code": "\n".join(L) + "\n", "kinds": set(kinds), "family": "obj", "shape": "obj", "crate": short, "weight": n}
 
 
